@@ -243,8 +243,33 @@ def run(P, R):
     R.check(r5, ok, 'the rate is the non-negative counter difference', 'wrap|difference', io.loc(),
             'io_statistics computes %s' % {k: defs.get(k) for k in ('in_bytes', 'out_bytes')})
     cu = P.unit('statscompiler:cpu_statistics')
-    ok = any(isinstance(c, ast.Call) and call_text(c) == 'cpu.append' and isinstance(c.args[0], ast.IfExp) and
-             ast.unparse(c.args[0].test) == 'total' for c in own_nodes(cu.node))
+    # every division of cpu_statistics (and of the module functions it calls) is guarded by its own denominator:
+    # in the true arm of `.. if den else ..` or under the fact `den`
+    ok, n_div = True, 0
+    todo, seen_fn = [cu], set()
+    while todo:
+        fu = todo.pop()
+        if fu.qual in seen_fn:
+            continue
+        seen_fn.add(fu.qual)
+        fmu = factmap(fu)
+        guarded = set()
+        for x in ast.walk(fu.node):
+            if isinstance(x, ast.IfExp):
+                for d in ast.walk(x.body):
+                    if isinstance(d, ast.BinOp) and isinstance(d.op, (ast.Div, ast.FloorDiv, ast.Mod)) and \
+                            ast.unparse(d.right) == ast.unparse(x.test):
+                        guarded.add(id(d))
+        for x in own_nodes(fu.node):
+            if isinstance(x, ast.BinOp) and isinstance(x.op, (ast.Div, ast.FloorDiv, ast.Mod)) and \
+                    not isinstance(x.right, ast.Constant):
+                n_div += 1
+                st_ = fmu.stmt_of.get(id(x), x)
+                if id(x) not in guarded and not fmu.has(st_, ast.unparse(x.right), True):
+                    ok = False
+            if isinstance(x, ast.Call) and isinstance(x.func, ast.Name) and x.func.id in fu.mod.funcs:
+                todo.append(fu.mod.funcs[x.func.id])
+    ok = ok and n_div >= 1
     R.check(r5, ok, 'the CPU ratio guards a null interval', 'wrap|cpu-total', cu.loc(),
             'cpu_statistics divides by total without guarding total == 0')
     R.assume('CPU in [0,100] per core and finiteness of rates are numeric properties and are NOT decided.')
